@@ -323,12 +323,13 @@ def _(c):
 
 def _grid_lambert(tier, rng):
     """seeded non-collinear (r0, r1, tof) built from elliptic transfers of less than one revolution (e<0.7, any
-    inclination, transfer angle 10..340 deg), prograde and retrograde; 60 quick / 400 thorough"""
+    inclination, transfer angle 10..340 deg, a from LEO to lunar distance so that transfer times range from minutes to several days),
+    prograde and retrograde; 60 quick / 400 thorough"""
     mu = 3.986004418e14
     n = 0
     want = 60 if tier == "quick" else 400
     while n < want:
-        a = rng.uniform(7e6, 4e7)
+        a = rng.uniform(7e6, 4e7) if n % 3 else rng.uniform(6e7, 3e8)  # every third case: multi-day transfers
         e = rng.uniform(0, 0.7)
         i, O, w = rng.uniform(0.05, 3.09), rng.uniform(0, 6.28), rng.uniform(0, 6.28)
         nu0 = rng.uniform(0, 6.28)
@@ -378,9 +379,11 @@ def _(c):
     cr = cross(r0, r1)
     c.require(sym.Or(cr[0] != 0, cr[1] != 0, cr[2] != 0), "non-collinear")
     prograde = c.choice("prograde", [True, False])
-    F = lambda nr0, nr1, A, z, duration, mu_: sym.uf("F", z)
-    dF = lambda nr0, nr1, A, z: sym.uf("dF", z)
-    Y = lambda nr0, nr1, A, z: sym.uf("Y", z)
+    # callee contracts by purity only; written against the positional convention (nr0, nr1, A, z, ...) so that a change of the
+    # trailing parameters does not turn into a checker error
+    F = lambda *a, **k: sym.uf("F", a[3])
+    dF = lambda *a, **k: sym.uf("dF", a[3])
+    Y = lambda *a, **k: sym.uf("Y", a[3])
     seen = {}
 
     def inv(env):
@@ -404,7 +407,8 @@ def _(c):
         f"{LAM}:_lambert#1": LoopSpec(inv, at_exit=at_exit),
     }
 
-    def dF_stub(nr0, nr1, A, z):
+    def dF_stub(*a, **k):
+        z = a[3]
         v = sym.uf("dF", z)
         sym.cur().add_fact("pre", "dF_nonzero", sym.lift_bool(v != 0))
         return v
